@@ -87,6 +87,42 @@ func genHistCase(t *rapid.T) *HistCase {
 			c.ValsB[name] = gen.Value(t, v.T, gen.ValOpt{MaxLen: 4})
 		}
 	}
+	// built-ins that read a whole container: applied to list-typed bindings whose values repeat
+	// an element before a further one (a built-in must not rearrange its argument in place)
+	for _, name := range names {
+		ty := c.Env[name]
+		if ty.K != m.TList || ty.El().K == m.TBot || len(c.Exprs) >= 6 || !rapid.Bool().Draw(t, "setop") {
+			continue
+		}
+		for _, vals := range []map[string]*m.Val{c.ValsA, c.ValsB} {
+			v := vals[name]
+			if len(v.L) >= 2 && rapid.Bool().Draw(t, "dupmid") {
+				nv := &m.Val{T: v.T}
+				i := rapid.IntRange(0, len(v.L)-2).Draw(t, "dupat")
+				nv.L = append(nv.L, v.L[:i+1]...)
+				nv.L = append(nv.L, v.L[i])
+				nv.L = append(nv.L, v.L[i+1:]...)
+				vals[name] = nv
+			}
+		}
+		x := m.V(name)
+		var e *m.Expr
+		switch rapid.IntRange(0, 3).Draw(t, "setopkind") {
+		case 0:
+			e = m.Call("union", x, m.ListE())
+		case 1:
+			e = m.Call("intersect", x, x.Clone())
+		case 2:
+			e = m.Call("diff", x, m.ListE())
+		default:
+			e = m.Call("union", m.ListE(), x)
+		}
+		if rapid.Bool().Draw(t, "thenread") {
+			e = m.ListE(e, x.Clone()) // ... and the binding is read again in the same evaluation
+		}
+		c.Exprs = append(c.Exprs, e)
+		n = len(c.Exprs)
+	}
 	nops := rapid.IntRange(3, 25).Draw(t, "nops")
 	for i := 0; i < nops; i++ {
 		c.Ops = append(c.Ops, HOp{
